@@ -236,6 +236,13 @@ func TestVerifC09Span(t *testing.T) {
 				adv = 0
 			}
 			now = now.Add(adv)
+			if wellFormed && callRotate && !now.Before(curEnd) && rapid.IntRange(0, 2).Draw(t, "settingChanges") == 0 {
+				// the week-end setting is changed while the process runs (the file is rewritten, or removed and
+				// created again): the span of the next file follows the setting in force when that file is opened
+				digit = rapid.IntRange(0, 6).Draw(t, "newDigit")
+				os.WriteFile(wfile, []byte(fmt.Sprintf("%d\n", digit)), 0666)
+				vstats.Label("weekendSettingChangedBetweenRotations")
+			}
 			frozen, _ := os.ReadFile(curPath)
 			firedTimer := false
 			if !callRotate {
